@@ -136,6 +136,32 @@ Theorem sampling_default_is_100 : new_sampler (trace_options []) = Fixed 100.
 Proof. reflexivity. Qed.
 Print Assumptions sampling_default_is_100.
 
+(* The option constructors refuse values outside their domain, so every option
+   list that can be built at all yields a percentage in [0,100], a non-negative
+   maximum rate and a positive sample size: the range hypotheses of
+   sampling_percent_exact and adaptive_warmup_samples_all are established by the
+   code itself (uint32(sampleSize) < 2^32 by construction). *)
+Theorem checked_options_in_range (xs : list trace_opt) (o : trace_opts) :
+  trace_options_checked xs = Some o ->
+  (0 <= t_percent o <= 100)%Z /\ (0 <= t_maxrate o)%Z /\ (0 < t_size o)%Z.
+Proof. exact (thm_checked_options_in_range xs o). Qed.
+Print Assumptions checked_options_in_range.
+
+Theorem checked_fixed_sampling_exact (xs : list trace_opt) (o : trace_opts) (r : Z) :
+  trace_options_checked xs = Some o -> t_maxrate o = 0%Z -> (0 <= r < 100)%Z ->
+  exists p, new_sampler o = Fixed p /\ fst (fst (sample (new_sampler o) 0 r)) = (r <? p)%Z /\
+            (p = 0%Z -> fst (fst (sample (new_sampler o) 0 r)) = false) /\
+            (p = 100%Z -> fst (fst (sample (new_sampler o) 0 r)) = true).
+Proof. exact (thm_checked_fixed_sampling_exact xs o r). Qed.
+Print Assumptions checked_fixed_sampling_exact.
+
+Theorem checked_adaptive_warmup (xs : list trace_opt) (o : trace_opts) (ins : list (Z * Z)) :
+  trace_options_checked xs = Some o -> (0 < t_maxrate o)%Z ->
+  (N.of_nat (length ins) < N.modulo (Z.to_N (t_size o)) 4294967296)%N ->
+  fst (sample_seq (new_sampler o) ins) = repeat true (length ins).
+Proof. exact (thm_checked_adaptive_warmup xs o ins). Qed.
+Print Assumptions checked_adaptive_warmup.
+
 (* adaptive sampler: the rate stays within [1, 10000] whatever the clock says, and
    until the sample size is reached for the first time every request is sampled *)
 Theorem adaptive_rate_in_range (o : trace_opts) (ins : list (Z * Z)) :
@@ -250,6 +276,59 @@ Theorem stack_trace_survives (k : kind) (l1 : list layer) (xs : list trace_opt) 
 Proof. exact (thm_stack_trace_survives k l1 xs q l2 s t). Qed.
 Print Assumptions stack_trace_survives.
 
+(* ---------------- Log middlewares: identifiers end to end ---------------- *)
+
+(* Every Log layer placed below a request-id layer (any other layers in between and
+   around, any transport) prints exactly the id the handler finds in its context:
+   http reads it from the context, grpc from the x-request-id metadata the
+   request-id middleware wrote back. *)
+Theorem stack_log_id_is_request_id (k : kind) (l1 : list layer) (xs : list rid_opt) (fresh : bytes) (l2 : list layer) (s : sstate) :
+  fresh <> [] -> forallb (fun l => negb (is_rid_layer l)) l2 = true ->
+  let final := run_stack k (l1 ++ LRid xs fresh :: l2) s in
+  exists id, s_rid final = Some id /\ id <> [] /\
+             s_logs final = s_logs (run_stack k l1 s) ++ repeat id (count_logs l2).
+Proof. exact (thm_stack_log_id_is_request_id k l1 xs fresh l2 s). Qed.
+Print Assumptions stack_log_id_is_request_id.
+
+(* A Log layer OUTSIDE the request-id layer of a fresh request prints a generated
+   id (http) or the caller's raw x-request-id, trusted or not (grpc). *)
+Theorem stack_log_before_request_id (k : kind) (fresh : bytes) (s : sstate) :
+  s_rid s = None ->
+  s_logs (layer_step k s (LLog fresh)) = s_logs s ++
+    [match k with KHttp => fresh | _ => if is_empty (hget (s_md s) XRID) then fresh else hget (s_md s) XRID end].
+Proof. exact (thm_stack_log_before_request_id k fresh s). Qed.
+Print Assumptions stack_log_before_request_id.
+
+(* What the http Log layers of a stack print about the response. Byte counts: every
+   Log layer of every stack prints the number of bytes the writer received, for all
+   handler histories (full). *)
+Theorem log_reports_bytes_written (ls : list layer) (h : list wevent) :
+  Forall (fun c => cap_bytes c = sum_writes h) (log_reports ls h) /\
+  w_bytes (sent (writer_history ls h)) = sum_writes h.
+Proof. exact (thm_log_reports_bytes_written ls h). Qed.
+Print Assumptions log_reports_bytes_written.
+
+(* Status: in a stack without a Debug layer every Log layer prints exactly the
+   status the writer sent, for all handler histories (nested captures are
+   transparent for one another). *)
+Theorem log_reports_written_partial (ls : list layer) (h : list wevent) :
+  forallb final_code h = true -> existsb is_debug_layer ls = false ->
+  length (log_reports ls h) = count_logs ls /\
+  Forall (fun c => reported_status c = w_status (sent (writer_history ls h)) /\
+                   cap_bytes c = w_bytes (sent (writer_history ls h))) (log_reports ls h).
+Proof. exact (thm_log_reports_written_partial ls h). Qed.
+Print Assumptions log_reports_written_partial.
+
+(* With a Debug layer OUTSIDE two nested Log layers the full statement is false:
+   Debug's writer wrapper is no http.Flusher, the outer capture still has a Flush
+   method, so the inner capture records the implicit 200 of a flush that goes
+   nowhere and then ignores the WriteHeader(404) that is really sent. *)
+Theorem log_reports_written_refuted :
+  exists ls h, forallb final_code h = true /\ ls = [LDebug; LLog []; LLog []] /\ h = [Flush; WriteHeader 404] /\
+    exists c, In c (log_reports ls h) /\ reported_status c <> w_status (sent (writer_history ls h)).
+Proof. exact thm_log_reports_written_refuted. Qed.
+Print Assumptions log_reports_written_refuted.
+
 (* ---------------- response capture ---------------- *)
 
 (* byte count: over ALL writer histories the capture's ContentLength is the sum of
@@ -310,4 +389,22 @@ Example capture_example :
   capture [Copy 5] = {| cap_status := 200; cap_bytes := 5 |} /\
   capture [CtlFlush; WriteString 2; WriteHeader 404] = {| cap_status := 200; cap_bytes := 2 |} /\
   cap_status (capture []) = 0%Z.
+Proof. vm_compute. repeat split. Qed.
+
+Example log_example :
+  let md := [(0%N, [[97%N; 98%N]])] in
+  let st := {| s_rid := None; s_md := md; s_tctx := empty_ctx; s_logs := [] |} in
+  s_logs (run_stack KUnary [LLog [120%N]; LRid [OUse false] [121%N]; LDebug; LLog [122%N]] st) = [[97%N; 98%N]; [121%N]] /\
+  s_logs (run_stack KHttp [LLog [120%N]; LRid [OUse true] [121%N]; LLog [122%N]] st) = [[120%N]; [97%N; 98%N]] /\
+  log_reports [LLog []; LDebug] [Flush; WriteHeader 404; Write 3] = [{| cap_status := 404; cap_bytes := 3 |}] /\
+  log_reports [LLog []] [Flush; WriteHeader 404; Write 3] = [{| cap_status := 200; cap_bytes := 3 |}] /\
+  log_reports [LDebug; LLog []; LLog []] [Flush; WriteHeader 404] =
+    [{| cap_status := 404; cap_bytes := 0 |}; {| cap_status := 200; cap_bytes := 0 |}].
+Proof. vm_compute. repeat split. Qed.
+
+Example checked_options_example :
+  trace_options_checked [OPercent 101] = None /\ trace_options_checked [OMaxRate 0] = None /\
+  trace_options_checked [OSize 0; OPercent 5] = None /\
+  trace_options_checked [OPercent 0; OSize 7; ODiscard] =
+    Some {| t_percent := 0; t_maxrate := 0; t_size := 7; t_ndisc := 1 |}.
 Proof. vm_compute. repeat split. Qed.
